@@ -271,6 +271,7 @@ fn prefilter(args: &[String]) {
     let mut shapes = 0u64;
     let mut nontrivial = 0u64; // results in which some glyph differs from plain cmap mapping count (layout fired)
     let mut diffs = 0u64;
+    let mut stale = 0u64; // shapes in which a skip decision saw a digest missing a buffer glyph
     let mut used = 0usize;
     let mut order: Vec<usize> = (0..fonts.len()).collect();
     // deterministic shuffle so that a font budget still spreads over the corpus
@@ -302,6 +303,11 @@ fn prefilter(args: &[String]) {
                 let idx = if r.chance(3, 4) { (base + r.below(24) as usize) % chars.len() } else { r.below(chars.len() as u64) as usize };
                 text.push((chars[idx], i as u32));
             }
+            // a third of the texts: ill-formed / mark-heavy sequences over the font's characters (broken
+            // clusters make the syllabic shapers insert dotted circles in a pause between GSUB stages)
+            if r.chance(1, 3) {
+                text = crate::e2e::gen_text_structured(&mut r, &chars, 12).into_iter().enumerate().map(|(i, c)| (c, i as u32)).collect();
+            }
             let req = Req {
                 text,
                 dir: if r.chance(1, 4) { Some(*r.pick(&[rustybuzz::Direction::LeftToRight, rustybuzz::Direction::RightToLeft, rustybuzz::Direction::TopToBottom])) } else { None },
@@ -313,7 +319,18 @@ fn prefilter(args: &[String]) {
             let d1 = data.clone();
             let rq = req.clone();
             VERIF_PREFILTER_OFF.store(false, Ordering::SeqCst);
+            // monitor: every skip decision must be taken with a digest that covers the buffer's glyphs
+            VERIF_DIGEST_STALE.store(0, Ordering::SeqCst);
+            VERIF_DIGEST_MONITOR.store(true, Ordering::SeqCst);
             let on = catch(move || { let f = rustybuzz::Face::from_slice(&d1, 0).unwrap(); shape_req(&f, &rq) });
+            VERIF_DIGEST_MONITOR.store(false, Ordering::SeqCst);
+            let stale_n = VERIF_DIGEST_STALE.load(Ordering::SeqCst);
+            if stale_n > 0 {
+                stale += 1;
+                if stale <= 10 {
+                    println!("stale font={} req=[{}] decisions={}", path, fmt_req(&req), stale_n);
+                }
+            }
             let d2 = data.clone();
             let rq = req.clone();
             VERIF_PREFILTER_OFF.store(true, Ordering::SeqCst);
@@ -335,5 +352,5 @@ fn prefilter(args: &[String]) {
             }
         }
     }
-    println!("prefilter-summary fonts={} shapes={} nontrivial={} diffs={}", used, shapes, nontrivial, diffs);
+    println!("prefilter-summary fonts={} shapes={} nontrivial={} diffs={} stale={}", used, shapes, nontrivial, diffs, stale);
 }
